@@ -134,8 +134,9 @@ def _match(lookup_value, lookup_array, match_type=1):
             return val == lookup_value
 
     for i, value in enumerate(lookup_array, 1):
-        if value is None and match_type != 0:
-            # an empty cell does not hold a value >= the lookup value
+        if value is None:
+            # an empty cell holds no value: it is neither equal to 0 or ""
+            # nor >= the lookup value
             continue
         if value not in ERROR_CODES:
             value = ExcelCmp(value)
